@@ -1,18 +1,20 @@
 """C04 — operations addressed to one bucket never change any other bucket."""
 from ..backends import BACKENDS, Store
 from ..gen import canon, mk_event, rand_grid
-from ._st import dump_store
+from ._st import dump_store, raw_others, raw_view
 
 ID = "C04"
 LEVEL = "exploration"
 ANCHOR_FILES = ["aw_datastore/storages/memory.py", "aw_datastore/storages/sqlite.py", "aw_datastore/storages/peewee.py"]
-REQUIRED_COUNTERS = ["ops.memory", "ops.sqlite", "ops.peewee", "frame_checks", "ops_with_foreign_id"]
+REQUIRED_COUNTERS = ["ops.memory", "ops.sqlite", "ops.peewee", "frame_checks", "quiet_frame_checks", "ops_with_foreign_id"]
 RULE = ("per case one store with 2-4 buckets created in a generated order and populated from one shared pool of start and "
         "end instants (so instants coincide across buckets); then 8-25 single operations addressed to one bucket: "
         "insert, insert of an event carrying an id, bulk insert, bulk upsert, replace, replace_last, delete, "
         "update_bucket, delete_bucket + re-create - with ids drawn from the addressed bucket, from ANOTHER bucket "
-        "(live or deleted there) or never used; before and after each operation every other bucket is dumped "
-        "(events + metadata) and compared; exceptions are an accepted outcome; non-trivial = the operation carries a "
+        "(live or deleted there) never used, or unbindable (2**63, -5, 'abc': the operation raises midway); before and after each operation every other bucket is dumped "
+        "(events + metadata) and compared - in half of the cases through API reads, in the other half ('quiet') through "
+        "the writer connection's own uncommitted view, because an API read commits on the lazy store and would hide "
+        "lost pending writes; exceptions are an accepted outcome; non-trivial = the operation carries a "
         "foreign id or an event whose start/end coincides with an event of another bucket; signature = (backend, op "
         "kind, id origin, coincidence kind, other bucket created earlier/later, other bucket empty?)")
 ASSUMPTIONS = ["only the other buckets are compared; what happens inside the addressed bucket is C02's business"]
@@ -41,20 +43,27 @@ def gen_case(rng, ctx):
     ops = []
     for _ in range(rng.randrange(8, 26)):
         a = rng.randrange(nb)
-        origin = rng.choice(["own", "foreign", "foreign", "foreign", "foreign-deleted", "never"])
+        origin = rng.choice(["own", "foreign", "foreign", "foreign", "foreign-deleted", "never", "huge", "negative", "str"])
         idref = dict(origin=origin, other=rng.randrange(nb), pick=rng.randrange(100))
         kind = rng.choice(["insert", "insert_with_id", "insert_with_id", "bulk", "upsert", "upsert", "replace", "replace",
                            "replace_last", "replace_last", "delete", "delete", "update_bucket", "recreate_bucket"])
         op = dict(op=kind, b=a, id=idref, ev=ev())
         if kind in ("bulk", "upsert"):
             op["evs"] = [ev() for _ in range(rng.choice([1, 2, 3]))]
-            op["ids"] = [dict(origin=rng.choice(["own", "foreign", "foreign", "never", "none"]),
+            op["ids"] = [dict(origin=rng.choice(["own", "foreign", "foreign", "never", "none", "none", "huge", "str"]),
                               other=rng.randrange(nb), pick=rng.randrange(100)) for _ in op["evs"]]
         ops.append(op)
-    return dict(backend=backend, nb=nb, order=rng.sample(range(nb), nb), setup=setup, ops=ops)
+    return dict(backend=backend, nb=nb, order=rng.sample(range(nb), nb), setup=setup, ops=ops, quiet=rng.random() < 0.5)
+
+
+_QUIET = {"store": None}
 
 
 def _ids(ds, bid):
+    st = _QUIET["store"]
+    if st is not None:      # quiet mode: no API read (it would commit pending writes)
+        _, ids = raw_view(st)
+        return sorted(i for (b, _), i in ids.items() if b == bid)
     try:
         return sorted(e.id for e in ds[bid].get(-1))
     except Exception:
@@ -66,6 +75,8 @@ def _resolve(ds, bids, a, ref, deleted, never):
     origin = ref["origin"]
     if origin == "none":
         return None, "none"
+    if origin in ("huge", "negative", "str"):
+        return {"huge": 2**63, "negative": -5, "str": "abc"}[origin], origin
     others = [i for i in range(len(bids)) if i != a]
     o = others[ref["other"] % len(others)]
     if origin == "own":
@@ -92,6 +103,8 @@ def run_case(case, ctx):
     nontriv = 0
     with Store(backend, ctx.tmp) as st:
         ds = st.ds
+        quiet = bool(case.get("quiet")) and backend != "memory"
+        _QUIET["store"] = st if quiet else None
         bids = [f"bk-{i}" for i in range(case["nb"])]
         for i in case["order"]:
             ds.create_bucket(bids[i], type=f"type{i}", client=f"client{i}", hostname=f"host{i}", name=f"name{i}",
@@ -106,16 +119,27 @@ def run_case(case, ctx):
             a = op["b"]
             A = bids[a]
             kind = op["op"]
-            others_before = dump_store(ds, skip={A})
-            # coincidences between the event written and events elsewhere
             s_us, e_us = op["ev"]["ts"], op["ev"]["ts"] + op["ev"]["dur"]
             co = set()
-            for bid, (_, evs) in others_before.items():
-                for (_, ts, dur, _) in evs:
-                    if ts == s_us:
-                        co.add("start")
-                    if ts + dur == e_us:
-                        co.add("end")
+            if quiet:
+                # the writer's own view: observing must not flush what the operations left pending
+                raw_before = raw_others(raw_view(st)[0], A)
+                others_before = {b_: (None, [r for r in raw_before if r[0] == "E" and r[1] == b_]) for b_ in bids if b_ != A}
+                for r in raw_before:
+                    if r[0] == "E":
+                        if r[3] == str(s_us):
+                            co.add("start")
+                        if r[4] == str(e_us):
+                            co.add("end")
+            else:
+                others_before = dump_store(ds, skip={A})
+                # coincidences between the event written and events elsewhere
+                for bid, (_, evs) in others_before.items():
+                    for (_, ts, dur, _) in evs:
+                        if ts == s_us:
+                            co.add("start")
+                        if ts + dur == e_us:
+                            co.add("end")
             origin = "-"
             outcome = "ok"
             try:
@@ -163,6 +187,26 @@ def run_case(case, ctx):
                 outcome = type(ex).__name__
                 ctx.count(f"rejected.{backend}.{kind}")
             ctx.count(f"ops.{backend}")
+            if quiet:
+                ctx.count("frame_checks")
+                ctx.count("quiet_frame_checks")
+                raw_after = raw_others(raw_view(st)[0], A)
+                if origin in ("foreign", "foreign-deleted"):
+                    ctx.count("ops_with_foreign_id")
+                nt = origin in ("foreign", "foreign-deleted") or bool(co)
+                if nt:
+                    nontriv += 1
+                    others = [x for x in bids if x != A]
+                    ctx.sigs.add(canon([backend, "quiet", kind, origin, sorted(co), outcome != "ok",
+                                        any(created_rank[x] < created_rank[A] for x in others)]))
+                if raw_after != raw_before:
+                    lost = sorted(raw_before - raw_after, key=repr)[:4]
+                    new = sorted(raw_after - raw_before, key=repr)[:4]
+                    viols.append((f"{backend}:other-bucket-changed-in-the-writers-view",
+                                  f"op#{k} {kind} on {A} (id origin={origin}, outcome={outcome}, coincides={sorted(co)}): "
+                                  f"rows lost={lost!r:.400} rows new={new!r:.300}"))
+                    break
+                continue
             try:
                 others_after = dump_store(ds, skip={A})
             except Exception as ex:  # noqa: BLE001
@@ -187,5 +231,6 @@ def run_case(case, ctx):
                               f"op#{k} {kind} on {A} (id origin={origin}, outcome={outcome}, coincides={sorted(co)}) changed {bid}: "
                               f"before={others_before[bid][1]!r:.300} after={others_after.get(bid, (None, None))[1]!r:.300}"))
                 break
+        _QUIET["store"] = None
     n = len(case["ops"])
     return viols, dict(sig=None, nontrivial=nontriv > 0, weight=n, nontrivial_weight=nontriv)
